@@ -16,7 +16,15 @@ use std::cell::RefCell;
 
 pub struct C06;
 
-pub const KINDS: &[&str] = &["CoseSign1", "CoseSign", "CoseMac", "CoseMac0", "CoseEncrypt", "CoseEncrypt0", "CoseRecipient"];
+pub const KINDS: &[&str] = &[
+    "CoseSign1",
+    "CoseSign",
+    "CoseMac",
+    "CoseMac0",
+    "CoseEncrypt",
+    "CoseEncrypt0",
+    "CoseRecipient",
+];
 
 /// What a structure covers: context, protected bytes, AAD, payload (None for Enc_structure).
 #[derive(Clone, Debug, PartialEq)]
@@ -63,7 +71,10 @@ impl Stub {
 
 /// Bytes coset puts into the protected slot for palette header `idx` built in memory.
 fn enc_protected(h: &crate::model::MHeader) -> Result<Vec<u8>, String> {
-    let p = coset::ProtectedHeader { original_data: None, header: h.to_coset() };
+    let p = coset::ProtectedHeader {
+        original_data: None,
+        header: h.to_coset(),
+    };
     match guarded(|| p.cbor_bstr()) {
         Ok(Ok(coset::cbor::value::Value::Bytes(b))) => Ok(b),
         Ok(Ok(_)) => Err("cbor_bstr did not return a byte string".into()),
@@ -136,7 +147,14 @@ fn gen_history(kind: &str, rng: &mut Rng) -> Vec<Step> {
                     ops.push(o("protected", vec![a_hdr(rng)]));
                 }
             }
-            4 => ops.push(o(if rng.bool() { "protected" } else { "unprotected" }, vec![a_hdr(rng)])),
+            4 => ops.push(o(
+                if rng.bool() {
+                    "protected"
+                } else {
+                    "unprotected"
+                },
+                vec![a_hdr(rng)],
+            )),
             5 => {
                 // raw setter of the created slot
                 let name = match kind {
@@ -152,7 +170,9 @@ fn gen_history(kind: &str, rng: &mut Rng) -> Vec<Step> {
                 }
             }
             8 => match kind {
-                "CoseMac" | "CoseEncrypt" | "CoseRecipient" => ops.push(o("add_recipient", gen_rcpt_args(rng))),
+                "CoseMac" | "CoseEncrypt" | "CoseRecipient" => {
+                    ops.push(o("add_recipient", gen_rcpt_args(rng)))
+                }
                 _ => ops.push(o("unprotected", vec![a_hdr(rng)])),
             },
             _ => {
@@ -162,7 +182,10 @@ fn gen_history(kind: &str, rng: &mut Rng) -> Vec<Step> {
                 match kind {
                     "CoseSign1" => {
                         if !payload_set && rng.bool() {
-                            ops.push(o("create_detached", vec![a_aad(rng), fallible, fail, a_payload(rng)]));
+                            ops.push(o(
+                                "create_detached",
+                                vec![a_aad(rng), fallible, fail, a_payload(rng)],
+                            ));
                         } else {
                             ops.push(o("create", vec![a_aad(rng), fallible, fail]));
                         }
@@ -185,8 +208,20 @@ fn gen_history(kind: &str, rng: &mut Rng) -> Vec<Step> {
                             payload_set = true;
                         }
                     }
-                    "CoseRecipient" => ops.push(o("create", vec![a_aad(rng), fallible, fail, a_payload(rng), Arg::S(ctx_name(2 + rng.below(3)).into())])),
-                    _ => ops.push(o("create", vec![a_aad(rng), fallible, fail, a_payload(rng)])),
+                    "CoseRecipient" => ops.push(o(
+                        "create",
+                        vec![
+                            a_aad(rng),
+                            fallible,
+                            fail,
+                            a_payload(rng),
+                            Arg::S(ctx_name(2 + rng.below(3)).into()),
+                        ],
+                    )),
+                    _ => ops.push(o(
+                        "create",
+                        vec![a_aad(rng), fallible, fail, a_payload(rng)],
+                    )),
                 }
             }
         }
@@ -236,7 +271,22 @@ fn v5(msg: String) -> SendErr {
 
 impl Sender {
     fn new(failed: Vec<usize>, salt: u64) -> Sender {
-        Sender { stub: RefCell::new(Stub { salt, ..Stub::default() }), obs: vec![], tokens: vec![], failed, prot: crate::model::MHeader::default(), payload: None, st_fail_fired: 0, last_token: None, slot: None, signers: vec![], rcpts: vec![] }
+        Sender {
+            stub: RefCell::new(Stub {
+                salt,
+                ..Stub::default()
+            }),
+            obs: vec![],
+            tokens: vec![],
+            failed,
+            prot: crate::model::MHeader::default(),
+            payload: None,
+            st_fail_fired: 0,
+            last_token: None,
+            slot: None,
+            signers: vec![],
+            rcpts: vec![],
+        }
     }
 
     fn enc(&self, h: &crate::model::MHeader) -> Result<Vec<u8>, SendErr> {
@@ -267,12 +317,24 @@ impl Sender {
         let calls_after = self.stub.borrow().calls;
         let r = match r {
             Ok(r) => r,
-            Err(p) => return Err(v5(format!("op {} `{}` panicked: {}", idx, step.summary(), p))),
+            Err(p) => {
+                return Err(v5(format!(
+                    "op {} `{}` panicked: {}",
+                    idx,
+                    step.summary(),
+                    p
+                )))
+            }
         };
         if calls_after != calls_before + 1 {
             return Err(SendErr::Violation(Violation::new(
                 "C06.I4",
-                format!("op {} `{}`: creator function called {} times, expected exactly once", idx, step.summary(), calls_after - calls_before),
+                format!(
+                    "op {} `{}`: creator function called {} times, expected exactly once",
+                    idx,
+                    step.summary(),
+                    calls_after - calls_before
+                ),
             )));
         }
         let bytes = self.stub.borrow_mut().last_bytes.take().unwrap_or_default();
@@ -281,11 +343,21 @@ impl Sender {
             if got != pt {
                 return Err(SendErr::Violation(Violation::new(
                     "C06.I1",
-                    format!("op {} `{}`: cipher was handed plaintext {} instead of {}", idx, step.summary(), hex_short(&got), hex_short(pt)),
+                    format!(
+                        "op {} `{}`: cipher was handed plaintext {} instead of {}",
+                        idx,
+                        step.summary(),
+                        hex_short(&got),
+                        hex_short(pt)
+                    ),
                 )));
             }
         }
-        self.obs.push(Obs { tuple, bytes, what: format!("create@op{} `{}`", idx, step.name) });
+        self.obs.push(Obs {
+            tuple,
+            bytes,
+            what: format!("create@op{} `{}`", idx, step.name),
+        });
         match r {
             Ok(b) => {
                 if fail_now {
@@ -317,7 +389,11 @@ fn err_for(token: &[u8]) -> String {
     format!("ERR:{}", String::from_utf8_lossy(token))
 }
 
-fn signer(stub: &RefCell<Stub>, token: Vec<u8>, fail: bool) -> impl FnOnce(&[u8]) -> Result<Vec<u8>, String> + '_ {
+fn signer(
+    stub: &RefCell<Stub>,
+    token: Vec<u8>,
+    fail: bool,
+) -> impl FnOnce(&[u8]) -> Result<Vec<u8>, String> + '_ {
     move |data: &[u8]| {
         let mut s = stub.borrow_mut();
         s.calls += 1;
@@ -330,7 +406,11 @@ fn signer(stub: &RefCell<Stub>, token: Vec<u8>, fail: bool) -> impl FnOnce(&[u8]
     }
 }
 
-fn cipher(stub: &RefCell<Stub>, token: Vec<u8>, fail: bool) -> impl FnOnce(&[u8], &[u8]) -> Result<Vec<u8>, String> + '_ {
+fn cipher(
+    stub: &RefCell<Stub>,
+    token: Vec<u8>,
+    fail: bool,
+) -> impl FnOnce(&[u8], &[u8]) -> Result<Vec<u8>, String> + '_ {
     move |pt: &[u8], aad: &[u8]| {
         let mut s = stub.borrow_mut();
         s.calls += 1;
@@ -349,7 +429,12 @@ fn norm(p: &Option<Vec<u8>>) -> Option<Vec<u8>> {
 }
 
 /// Build a nested recipient with its own small builder history.
-fn build_rcpt(s: &mut Sender, idx: usize, step: &Step, at: usize) -> Result<coset::CoseRecipient, SendErr> {
+fn build_rcpt(
+    s: &mut Sender,
+    idx: usize,
+    step: &Step,
+    at: usize,
+) -> Result<coset::CoseRecipient, SendErr> {
     let hp = header_from_arg(step, at)?;
     let hu = header_from_arg(step, at + 1)?;
     let cn = step.sym(at + 2)?.to_string();
@@ -364,22 +449,57 @@ fn build_rcpt(s: &mut Sender, idx: usize, step: &Step, at: usize) -> Result<cose
         .unprotected(hu.to_coset());
     if inner {
         // second nesting level: built first, with its own create event
-        let tuple = Tuple { ctx: "RecRecipient".into(), body: s.enc(&hin)?, sign: None, aad: b"inner-aad".to_vec(), payload: None };
+        let tuple = Tuple {
+            ctx: "RecRecipient".into(),
+            body: s.enc(&hin)?,
+            sign: None,
+            aad: b"inner-aad".to_vec(),
+            payload: None,
+        };
         let ib = coset::CoseRecipientBuilder::new().protected(hin.to_coset());
-        let ib = s.create(idx, step, tuple, false, false, Some(b"inner-pt"), move |stub, tok, _| {
-            Ok(ib.create_ciphertext(coset::EncryptionContext::RecRecipient, b"inner-pt", b"inner-aad", |p, a| cipher(stub, tok, false)(p, a).unwrap()))
-        })?;
+        let ib = s.create(
+            idx,
+            step,
+            tuple,
+            false,
+            false,
+            Some(b"inner-pt"),
+            move |stub, tok, _| {
+                Ok(ib.create_ciphertext(
+                    coset::EncryptionContext::RecRecipient,
+                    b"inner-pt",
+                    b"inner-aad",
+                    |p, a| cipher(stub, tok, false)(p, a).unwrap(),
+                ))
+            },
+        )?;
         b = b.add_recipient(ib.build());
     }
-    let tuple = Tuple { ctx: cn.clone(), body: s.enc(&hp)?, sign: None, aad: aad.clone(), payload: None };
+    let tuple = Tuple {
+        ctx: cn.clone(),
+        body: s.enc(&hp)?,
+        sign: None,
+        aad: aad.clone(),
+        payload: None,
+    };
     let pt2 = pt.clone();
-    let b = s.create(idx, step, tuple, fallible, false, Some(&pt), move |stub, tok, _| {
-        if fallible {
-            b.try_create_ciphertext(ctx, &pt2, &aad, cipher(stub, tok, false))
-        } else {
-            Ok(b.create_ciphertext(ctx, &pt2, &aad, |p, a| cipher(stub, tok, false)(p, a).unwrap()))
-        }
-    })?;
+    let b = s.create(
+        idx,
+        step,
+        tuple,
+        fallible,
+        false,
+        Some(&pt),
+        move |stub, tok, _| {
+            if fallible {
+                b.try_create_ciphertext(ctx, &pt2, &aad, cipher(stub, tok, false))
+            } else {
+                Ok(b.create_ciphertext(ctx, &pt2, &aad, |p, a| {
+                    cipher(stub, tok, false)(p, a).unwrap()
+                }))
+            }
+        },
+    )?;
     Ok(b.build())
 }
 
@@ -434,24 +554,55 @@ fn send(kind: &str, ops: &[&Step], s: &mut Sender) -> Result<Built, SendErr> {
                         let fallible = step.int(1)? == 1;
                         let fail = step.int(2)? == 1;
                         let detached = step.name == "create_detached";
-                        let dp = if detached { Some(step.bytes(3)?.to_vec()) } else { None };
+                        let dp = if detached {
+                            Some(step.bytes(3)?.to_vec())
+                        } else {
+                            None
+                        };
                         if detached && s.payload.is_some() {
-                            return Err(HarnessError("generated history violates the detached precondition".into()).into());
+                            return Err(HarnessError(
+                                "generated history violates the detached precondition".into(),
+                            )
+                            .into());
                         }
                         let tuple = Tuple {
                             ctx: "Signature1".into(),
                             body: s.enc(&s.prot.clone())?,
                             sign: None,
                             aad: aad.clone(),
-                            payload: if detached { dp.clone() } else { norm(&s.payload) },
+                            payload: if detached {
+                                dp.clone()
+                            } else {
+                                norm(&s.payload)
+                            },
                         };
                         let bb = b;
-                        b = s.create(idx, step, tuple, fallible, fail, None, move |stub, tok, f| match (detached, fallible) {
-                            (false, false) => Ok(bb.create_signature(&aad, |d| signer(stub, tok, false)(d).unwrap())),
-                            (false, true) => bb.try_create_signature(&aad, signer(stub, tok, f)),
-                            (true, false) => Ok(bb.create_detached_signature(dp.as_ref().unwrap(), &aad, |d| signer(stub, tok, false)(d).unwrap())),
-                            (true, true) => bb.try_create_detached_signature(dp.as_ref().unwrap(), &aad, signer(stub, tok, f)),
-                        })?;
+                        b = s.create(
+                            idx,
+                            step,
+                            tuple,
+                            fallible,
+                            fail,
+                            None,
+                            move |stub, tok, f| match (detached, fallible) {
+                                (false, false) => Ok(bb.create_signature(&aad, |d| {
+                                    signer(stub, tok, false)(d).unwrap()
+                                })),
+                                (false, true) => {
+                                    bb.try_create_signature(&aad, signer(stub, tok, f))
+                                }
+                                (true, false) => Ok(bb.create_detached_signature(
+                                    dp.as_ref().unwrap(),
+                                    &aad,
+                                    |d| signer(stub, tok, false)(d).unwrap(),
+                                )),
+                                (true, true) => bb.try_create_detached_signature(
+                                    dp.as_ref().unwrap(),
+                                    &aad,
+                                    signer(stub, tok, f),
+                                ),
+                            },
+                        )?;
                         s.slot = s.last_token.clone();
                     }
                     x => return Err(HarnessError(format!("CoseSign1: unknown op {}", x)).into()),
@@ -492,27 +643,61 @@ fn send(kind: &str, ops: &[&Step], s: &mut Sender) -> Result<Built, SendErr> {
                         let fallible = step.int(4)? == 1;
                         let fail = step.int(5)? == 1;
                         let detached = step.name == "add_detached";
-                        let dp = if detached { Some(step.bytes(6)?.to_vec()) } else { None };
+                        let dp = if detached {
+                            Some(step.bytes(6)?.to_vec())
+                        } else {
+                            None
+                        };
                         if detached && s.payload.is_some() {
-                            return Err(HarnessError("generated history violates the detached precondition".into()).into());
+                            return Err(HarnessError(
+                                "generated history violates the detached precondition".into(),
+                            )
+                            .into());
                         }
                         let tuple = Tuple {
                             ctx: "Signature".into(),
                             body: s.enc(&s.prot.clone())?,
                             sign: Some(sign_id.clone()),
                             aad: aad.clone(),
-                            payload: if detached { dp.clone() } else { norm(&s.payload) },
+                            payload: if detached {
+                                dp.clone()
+                            } else {
+                                norm(&s.payload)
+                            },
                         };
                         let cs = sig.to_coset();
                         let sign_id2 = sign_id;
                         let bb = b;
-                        b = s.create(idx, step, tuple, fallible, fail, None, move |stub, tok, f| match (detached, fallible) {
-                            (false, false) => Ok(bb.add_created_signature(cs, &aad, |d| signer(stub, tok, false)(d).unwrap())),
-                            (false, true) => bb.try_add_created_signature(cs, &aad, signer(stub, tok, f)),
-                            (true, false) => Ok(bb.add_detached_signature(cs, dp.as_ref().unwrap(), &aad, |d| signer(stub, tok, false)(d).unwrap())),
-                            (true, true) => bb.try_add_detached_signature(cs, dp.as_ref().unwrap(), &aad, signer(stub, tok, f)),
-                        })?;
-                        s.signers.push((sign_id2, s.last_token.clone().unwrap_or_default()));
+                        b = s.create(
+                            idx,
+                            step,
+                            tuple,
+                            fallible,
+                            fail,
+                            None,
+                            move |stub, tok, f| match (detached, fallible) {
+                                (false, false) => Ok(bb.add_created_signature(cs, &aad, |d| {
+                                    signer(stub, tok, false)(d).unwrap()
+                                })),
+                                (false, true) => {
+                                    bb.try_add_created_signature(cs, &aad, signer(stub, tok, f))
+                                }
+                                (true, false) => Ok(bb.add_detached_signature(
+                                    cs,
+                                    dp.as_ref().unwrap(),
+                                    &aad,
+                                    |d| signer(stub, tok, false)(d).unwrap(),
+                                )),
+                                (true, true) => bb.try_add_detached_signature(
+                                    cs,
+                                    dp.as_ref().unwrap(),
+                                    &aad,
+                                    signer(stub, tok, f),
+                                ),
+                            },
+                        )?;
+                        s.signers
+                            .push((sign_id2, s.last_token.clone().unwrap_or_default()));
                     }
                     x => return Err(HarnessError(format!("CoseSign: unknown op {}", x)).into()),
                 }
@@ -546,17 +731,35 @@ fn send(kind: &str, ops: &[&Step], s: &mut Sender) -> Result<Built, SendErr> {
                         let fallible = step.int(1)? == 1;
                         let fail = step.int(2)? == 1;
                         if s.payload.is_none() {
-                            return Err(HarnessError("generated history violates the payload precondition".into()).into());
+                            return Err(HarnessError(
+                                "generated history violates the payload precondition".into(),
+                            )
+                            .into());
                         }
-                        let tuple = Tuple { ctx: "MAC".into(), body: s.enc(&s.prot.clone())?, sign: None, aad: aad.clone(), payload: s.payload.clone() };
+                        let tuple = Tuple {
+                            ctx: "MAC".into(),
+                            body: s.enc(&s.prot.clone())?,
+                            sign: None,
+                            aad: aad.clone(),
+                            payload: s.payload.clone(),
+                        };
                         let bb = b;
-                        b = s.create(idx, step, tuple, fallible, fail, None, move |stub, tok, f| {
-                            if fallible {
-                                bb.try_create_tag(&aad, signer(stub, tok, f))
-                            } else {
-                                Ok(bb.create_tag(&aad, |d| signer(stub, tok, false)(d).unwrap()))
-                            }
-                        })?;
+                        b = s.create(
+                            idx,
+                            step,
+                            tuple,
+                            fallible,
+                            fail,
+                            None,
+                            move |stub, tok, f| {
+                                if fallible {
+                                    bb.try_create_tag(&aad, signer(stub, tok, f))
+                                } else {
+                                    Ok(bb
+                                        .create_tag(&aad, |d| signer(stub, tok, false)(d).unwrap()))
+                                }
+                            },
+                        )?;
                         s.slot = s.last_token.clone();
                     }
                     x => return Err(HarnessError(format!("CoseMac: unknown op {}", x)).into()),
@@ -585,17 +788,35 @@ fn send(kind: &str, ops: &[&Step], s: &mut Sender) -> Result<Built, SendErr> {
                         let fallible = step.int(1)? == 1;
                         let fail = step.int(2)? == 1;
                         if s.payload.is_none() {
-                            return Err(HarnessError("generated history violates the payload precondition".into()).into());
+                            return Err(HarnessError(
+                                "generated history violates the payload precondition".into(),
+                            )
+                            .into());
                         }
-                        let tuple = Tuple { ctx: "MAC0".into(), body: s.enc(&s.prot.clone())?, sign: None, aad: aad.clone(), payload: s.payload.clone() };
+                        let tuple = Tuple {
+                            ctx: "MAC0".into(),
+                            body: s.enc(&s.prot.clone())?,
+                            sign: None,
+                            aad: aad.clone(),
+                            payload: s.payload.clone(),
+                        };
                         let bb = b;
-                        b = s.create(idx, step, tuple, fallible, fail, None, move |stub, tok, f| {
-                            if fallible {
-                                bb.try_create_tag(&aad, signer(stub, tok, f))
-                            } else {
-                                Ok(bb.create_tag(&aad, |d| signer(stub, tok, false)(d).unwrap()))
-                            }
-                        })?;
+                        b = s.create(
+                            idx,
+                            step,
+                            tuple,
+                            fallible,
+                            fail,
+                            None,
+                            move |stub, tok, f| {
+                                if fallible {
+                                    bb.try_create_tag(&aad, signer(stub, tok, f))
+                                } else {
+                                    Ok(bb
+                                        .create_tag(&aad, |d| signer(stub, tok, false)(d).unwrap()))
+                                }
+                            },
+                        )?;
                         s.slot = s.last_token.clone();
                     }
                     x => return Err(HarnessError(format!("CoseMac0: unknown op {}", x)).into()),
@@ -625,16 +846,32 @@ fn send(kind: &str, ops: &[&Step], s: &mut Sender) -> Result<Built, SendErr> {
                         let fallible = step.int(1)? == 1;
                         let fail = step.int(2)? == 1;
                         let pt = step.bytes(3)?.to_vec();
-                        let tuple = Tuple { ctx: "Encrypt".into(), body: s.enc(&s.prot.clone())?, sign: None, aad: aad.clone(), payload: None };
+                        let tuple = Tuple {
+                            ctx: "Encrypt".into(),
+                            body: s.enc(&s.prot.clone())?,
+                            sign: None,
+                            aad: aad.clone(),
+                            payload: None,
+                        };
                         let bb = b;
                         let pt2 = pt.clone();
-                        b = s.create(idx, step, tuple, fallible, fail, Some(&pt), move |stub, tok, f| {
-                            if fallible {
-                                bb.try_create_ciphertext(&pt2, &aad, cipher(stub, tok, f))
-                            } else {
-                                Ok(bb.create_ciphertext(&pt2, &aad, |p, a| cipher(stub, tok, false)(p, a).unwrap()))
-                            }
-                        })?;
+                        b = s.create(
+                            idx,
+                            step,
+                            tuple,
+                            fallible,
+                            fail,
+                            Some(&pt),
+                            move |stub, tok, f| {
+                                if fallible {
+                                    bb.try_create_ciphertext(&pt2, &aad, cipher(stub, tok, f))
+                                } else {
+                                    Ok(bb.create_ciphertext(&pt2, &aad, |p, a| {
+                                        cipher(stub, tok, false)(p, a).unwrap()
+                                    }))
+                                }
+                            },
+                        )?;
                         s.slot = s.last_token.clone();
                     }
                     x => return Err(HarnessError(format!("CoseEncrypt: unknown op {}", x)).into()),
@@ -658,16 +895,32 @@ fn send(kind: &str, ops: &[&Step], s: &mut Sender) -> Result<Built, SendErr> {
                         let fallible = step.int(1)? == 1;
                         let fail = step.int(2)? == 1;
                         let pt = step.bytes(3)?.to_vec();
-                        let tuple = Tuple { ctx: "Encrypt0".into(), body: s.enc(&s.prot.clone())?, sign: None, aad: aad.clone(), payload: None };
+                        let tuple = Tuple {
+                            ctx: "Encrypt0".into(),
+                            body: s.enc(&s.prot.clone())?,
+                            sign: None,
+                            aad: aad.clone(),
+                            payload: None,
+                        };
                         let bb = b;
                         let pt2 = pt.clone();
-                        b = s.create(idx, step, tuple, fallible, fail, Some(&pt), move |stub, tok, f| {
-                            if fallible {
-                                bb.try_create_ciphertext(&pt2, &aad, cipher(stub, tok, f))
-                            } else {
-                                Ok(bb.create_ciphertext(&pt2, &aad, |p, a| cipher(stub, tok, false)(p, a).unwrap()))
-                            }
-                        })?;
+                        b = s.create(
+                            idx,
+                            step,
+                            tuple,
+                            fallible,
+                            fail,
+                            Some(&pt),
+                            move |stub, tok, f| {
+                                if fallible {
+                                    bb.try_create_ciphertext(&pt2, &aad, cipher(stub, tok, f))
+                                } else {
+                                    Ok(bb.create_ciphertext(&pt2, &aad, |p, a| {
+                                        cipher(stub, tok, false)(p, a).unwrap()
+                                    }))
+                                }
+                            },
+                        )?;
                         s.slot = s.last_token.clone();
                     }
                     x => return Err(HarnessError(format!("CoseEncrypt0: unknown op {}", x)).into()),
@@ -699,19 +952,37 @@ fn send(kind: &str, ops: &[&Step], s: &mut Sender) -> Result<Built, SendErr> {
                         let pt = step.bytes(3)?.to_vec();
                         let cn = step.sym(4)?.to_string();
                         let ctx = ctx_from_name(&cn)?;
-                        let tuple = Tuple { ctx: cn, body: s.enc(&s.prot.clone())?, sign: None, aad: aad.clone(), payload: None };
+                        let tuple = Tuple {
+                            ctx: cn,
+                            body: s.enc(&s.prot.clone())?,
+                            sign: None,
+                            aad: aad.clone(),
+                            payload: None,
+                        };
                         let bb = b;
                         let pt2 = pt.clone();
-                        b = s.create(idx, step, tuple, fallible, fail, Some(&pt), move |stub, tok, f| {
-                            if fallible {
-                                bb.try_create_ciphertext(ctx, &pt2, &aad, cipher(stub, tok, f))
-                            } else {
-                                Ok(bb.create_ciphertext(ctx, &pt2, &aad, |p, a| cipher(stub, tok, false)(p, a).unwrap()))
-                            }
-                        })?;
+                        b = s.create(
+                            idx,
+                            step,
+                            tuple,
+                            fallible,
+                            fail,
+                            Some(&pt),
+                            move |stub, tok, f| {
+                                if fallible {
+                                    bb.try_create_ciphertext(ctx, &pt2, &aad, cipher(stub, tok, f))
+                                } else {
+                                    Ok(bb.create_ciphertext(ctx, &pt2, &aad, |p, a| {
+                                        cipher(stub, tok, false)(p, a).unwrap()
+                                    }))
+                                }
+                            },
+                        )?;
                         s.slot = s.last_token.clone();
                     }
-                    x => return Err(HarnessError(format!("CoseRecipient: unknown op {}", x)).into()),
+                    x => {
+                        return Err(HarnessError(format!("CoseRecipient: unknown op {}", x)).into())
+                    }
                 }
             }
             Ok(Built::Recipient(b.build()))
@@ -748,7 +1019,11 @@ fn regions(wire: &[u8], kind: &str) -> Option<Vec<(&'static str, usize, usize)>>
     };
     for (i, n) in slot_names.iter().enumerate() {
         if let Some(it) = a.get(2 + i) {
-            let (s, e) = if matches!(it.kind, Kind::Bytes(_)) { content(it) } else { (it.start, it.end) };
+            let (s, e) = if matches!(it.kind, Kind::Bytes(_)) {
+                content(it)
+            } else {
+                (it.start, it.end)
+            };
             out.push((n, s, e));
         }
     }
@@ -788,13 +1063,48 @@ fn view(it: &Item, kind: &str) -> Option<WireView> {
         }
     };
     Some(match kind {
-        "CoseSign1" | "CoseMac0" => WireView { prot, payload: opt_b(a.get(2)?)?, slot: Some(a.get(3)?.as_bytes()?.to_vec()), nested: vec![] },
-        "CoseSign" => WireView { prot, payload: opt_b(a.get(2)?)?, slot: None, nested: nested_of(a.get(3), "CoseSignature")? },
-        "CoseSignature" => WireView { prot, payload: None, slot: Some(a.get(2)?.as_bytes()?.to_vec()), nested: vec![] },
-        "CoseMac" => WireView { prot, payload: opt_b(a.get(2)?)?, slot: Some(a.get(3)?.as_bytes()?.to_vec()), nested: nested_of(a.get(4), "CoseRecipient")? },
-        "CoseEncrypt" => WireView { prot, payload: None, slot: opt_b(a.get(2)?)?, nested: nested_of(a.get(3), "CoseRecipient")? },
-        "CoseEncrypt0" => WireView { prot, payload: None, slot: opt_b(a.get(2)?)?, nested: vec![] },
-        "CoseRecipient" => WireView { prot, payload: None, slot: opt_b(a.get(2)?)?, nested: nested_of(a.get(3), "CoseRecipient")? },
+        "CoseSign1" | "CoseMac0" => WireView {
+            prot,
+            payload: opt_b(a.get(2)?)?,
+            slot: Some(a.get(3)?.as_bytes()?.to_vec()),
+            nested: vec![],
+        },
+        "CoseSign" => WireView {
+            prot,
+            payload: opt_b(a.get(2)?)?,
+            slot: None,
+            nested: nested_of(a.get(3), "CoseSignature")?,
+        },
+        "CoseSignature" => WireView {
+            prot,
+            payload: None,
+            slot: Some(a.get(2)?.as_bytes()?.to_vec()),
+            nested: vec![],
+        },
+        "CoseMac" => WireView {
+            prot,
+            payload: opt_b(a.get(2)?)?,
+            slot: Some(a.get(3)?.as_bytes()?.to_vec()),
+            nested: nested_of(a.get(4), "CoseRecipient")?,
+        },
+        "CoseEncrypt" => WireView {
+            prot,
+            payload: None,
+            slot: opt_b(a.get(2)?)?,
+            nested: nested_of(a.get(3), "CoseRecipient")?,
+        },
+        "CoseEncrypt0" => WireView {
+            prot,
+            payload: None,
+            slot: opt_b(a.get(2)?)?,
+            nested: vec![],
+        },
+        "CoseRecipient" => WireView {
+            prot,
+            payload: None,
+            slot: opt_b(a.get(2)?)?,
+            nested: nested_of(a.get(3), "CoseRecipient")?,
+        },
         _ => return None,
     })
 }
@@ -822,12 +1132,18 @@ impl<'a> Receiver<'a> {
         tuple: Tuple,
         stored: &[u8],
         plan: &Plan,
-        call: impl FnOnce(&mut dyn FnMut(&[u8], &[u8]) -> Result<Vec<u8>, String>) -> Result<Vec<u8>, String>,
+        call: impl FnOnce(
+            &mut dyn FnMut(&[u8], &[u8]) -> Result<Vec<u8>, String>,
+        ) -> Result<Vec<u8>, String>,
     ) -> Result<(), Violation> {
         self.n += 1;
         let want_ret: Result<Vec<u8>, String> = if plan.result_ok {
             // verification helpers return (); decryption helpers return the plaintext
-            Ok(if what.contains("decrypt") { format!("PT#{}", self.n).into_bytes() } else { Vec::new() })
+            Ok(if what.contains("decrypt") {
+                format!("PT#{}", self.n).into_bytes()
+            } else {
+                Vec::new()
+            })
         } else {
             Err(format!("VERR#{}", self.n))
         };
@@ -839,11 +1155,24 @@ impl<'a> Receiver<'a> {
         };
         let got = match guarded(|| call(&mut verifier)) {
             Ok(r) => r,
-            Err(p) => return Err(Violation::new("C06.I5", format!("{} [{}] panicked: {}", what, plan.label, p))),
+            Err(p) => {
+                return Err(Violation::new(
+                    "C06.I5",
+                    format!("{} [{}] panicked: {}", what, plan.label, p),
+                ))
+            }
         };
         self.st.inc("verifications");
         if seen.len() != 1 {
-            return Err(Violation::new("C06.I3", format!("{} [{}]: caller's function invoked {} times", what, plan.label, seen.len())));
+            return Err(Violation::new(
+                "C06.I3",
+                format!(
+                    "{} [{}]: caller's function invoked {} times",
+                    what,
+                    plan.label,
+                    seen.len()
+                ),
+            ));
         }
         let (first, bytes) = seen.pop().unwrap();
         if first != stored {
@@ -853,9 +1182,19 @@ impl<'a> Receiver<'a> {
             ));
         }
         if got != want_ret {
-            return Err(Violation::new("C06.I3", format!("{} [{}]: helper returned {:?} but the caller's function returned {:?}", what, plan.label, got, want_ret)));
+            return Err(Violation::new(
+                "C06.I3",
+                format!(
+                    "{} [{}]: helper returned {:?} but the caller's function returned {:?}",
+                    what, plan.label, got, want_ret
+                ),
+            ));
         }
-        self.obs.push(Obs { tuple, bytes, what: format!("{} [{}]", what, plan.label) });
+        self.obs.push(Obs {
+            tuple,
+            bytes,
+            what: format!("{} [{}]", what, plan.label),
+        });
         Ok(())
     }
 }
@@ -866,11 +1205,19 @@ fn unit(r: Result<(), String>) -> Result<Vec<u8>, String> {
 
 /// Adapter: the verify helpers want FnOnce(&[u8], &[u8]) -> Result<(), E>; our recorder returns
 /// Result<Vec<u8>, String> (Ok payload ignored for verify, used for decrypt).
-fn as_verify<'v>(v: &'v mut dyn FnMut(&[u8], &[u8]) -> Result<Vec<u8>, String>) -> impl FnOnce(&[u8], &[u8]) -> Result<(), String> + 'v {
+fn as_verify<'v>(
+    v: &'v mut dyn FnMut(&[u8], &[u8]) -> Result<Vec<u8>, String>,
+) -> impl FnOnce(&[u8], &[u8]) -> Result<(), String> + 'v {
     move |a, b| v(a, b).map(|_| ())
 }
 
-fn recv_recipients(rx: &mut Receiver, rs: &[coset::CoseRecipient], views: &[WireView], path: &str, plan: &Plan) -> Result<(), Violation> {
+fn recv_recipients(
+    rx: &mut Receiver,
+    rs: &[coset::CoseRecipient],
+    views: &[WireView],
+    path: &str,
+    plan: &Plan,
+) -> Result<(), Violation> {
     for (i, (r, w)) in rs.iter().zip(views).enumerate() {
         if let (Some(_), Some(stored)) = (&r.ciphertext, &w.slot) {
             for (cn, ctx) in [
@@ -878,16 +1225,34 @@ fn recv_recipients(rx: &mut Receiver, rs: &[coset::CoseRecipient], views: &[Wire
                 ("MacRecipient", coset::EncryptionContext::MacRecipient),
                 ("RecRecipient", coset::EncryptionContext::RecRecipient),
             ] {
-                let tuple = Tuple { ctx: cn.into(), body: w.prot.clone(), sign: None, aad: plan.aad.clone(), payload: None };
+                let tuple = Tuple {
+                    ctx: cn.into(),
+                    body: w.prot.clone(),
+                    sign: None,
+                    aad: plan.aad.clone(),
+                    payload: None,
+                };
                 let want_ok = plan.result_ok;
-                rx.check(&format!("{}recipients[{}].decrypt({})", path, i, cn), tuple, stored, plan, |v| {
-                    let r2 = r.decrypt(ctx, &plan.aad, |a, b| v(a, b));
-                    let _ = want_ok;
-                    r2
-                })?;
+                rx.check(
+                    &format!("{}recipients[{}].decrypt({})", path, i, cn),
+                    tuple,
+                    stored,
+                    plan,
+                    |v| {
+                        let r2 = r.decrypt(ctx, &plan.aad, |a, b| v(a, b));
+                        let _ = want_ok;
+                        r2
+                    },
+                )?;
             }
         }
-        recv_recipients(rx, &r.recipients, &w.nested, &format!("{}recipients[{}].", path, i), plan)?;
+        recv_recipients(
+            rx,
+            &r.recipients,
+            &w.nested,
+            &format!("{}recipients[{}].", path, i),
+            plan,
+        )?;
     }
     Ok(())
 }
@@ -903,84 +1268,229 @@ fn wire_view(kind: &str, wire: &[u8], tagged: bool) -> Option<WireView> {
     view(&body, kind)
 }
 
-fn verify_sign1(rx: &mut Receiver, tag: &str, m: &coset::CoseSign1, w: &WireView, plans: &[Plan]) -> Result<(), Violation> {
+fn verify_sign1(
+    rx: &mut Receiver,
+    tag: &str,
+    m: &coset::CoseSign1,
+    w: &WireView,
+    plans: &[Plan],
+) -> Result<(), Violation> {
     let stored = w.slot.clone().unwrap_or_default();
     for plan in plans {
-        let t = Tuple { ctx: "Signature1".into(), body: w.prot.clone(), sign: None, aad: plan.aad.clone(), payload: norm(&w.payload) };
-        rx.check(&format!("{}verify_signature", tag), t, &stored, plan, |v| unit(m.verify_signature(&plan.aad, as_verify(v))))?;
+        let t = Tuple {
+            ctx: "Signature1".into(),
+            body: w.prot.clone(),
+            sign: None,
+            aad: plan.aad.clone(),
+            payload: norm(&w.payload),
+        };
+        rx.check(&format!("{}verify_signature", tag), t, &stored, plan, |v| {
+            unit(m.verify_signature(&plan.aad, as_verify(v)))
+        })?;
         if w.payload.is_none() && m.payload.is_none() {
-            let t = Tuple { ctx: "Signature1".into(), body: w.prot.clone(), sign: None, aad: plan.aad.clone(), payload: Some(plan.detached.clone()) };
-            rx.check(&format!("{}verify_detached_signature", tag), t, &stored, plan, |v| unit(m.verify_detached_signature(&plan.detached, &plan.aad, as_verify(v))))?;
+            let t = Tuple {
+                ctx: "Signature1".into(),
+                body: w.prot.clone(),
+                sign: None,
+                aad: plan.aad.clone(),
+                payload: Some(plan.detached.clone()),
+            };
+            rx.check(
+                &format!("{}verify_detached_signature", tag),
+                t,
+                &stored,
+                plan,
+                |v| unit(m.verify_detached_signature(&plan.detached, &plan.aad, as_verify(v))),
+            )?;
         }
     }
     Ok(())
 }
 
-fn verify_sign(rx: &mut Receiver, tag: &str, m: &coset::CoseSign, w: &WireView, plans: &[Plan]) -> Result<(), Violation> {
+fn verify_sign(
+    rx: &mut Receiver,
+    tag: &str,
+    m: &coset::CoseSign,
+    w: &WireView,
+    plans: &[Plan],
+) -> Result<(), Violation> {
     if w.nested.len() != m.signatures.len() {
-        return Err(Violation::new("C06.I1", format!("{}wire carries {} signatures but the decoded message has {}", tag, w.nested.len(), m.signatures.len())));
+        return Err(Violation::new(
+            "C06.I1",
+            format!(
+                "{}wire carries {} signatures but the decoded message has {}",
+                tag,
+                w.nested.len(),
+                m.signatures.len()
+            ),
+        ));
     }
     for plan in plans {
         for (i, sw) in w.nested.iter().enumerate() {
             let stored = sw.slot.clone().unwrap_or_default();
-            let t = Tuple { ctx: "Signature".into(), body: w.prot.clone(), sign: Some(sw.prot.clone()), aad: plan.aad.clone(), payload: norm(&w.payload) };
-            rx.check(&format!("{}verify_signature({})", tag, i), t, &stored, plan, |v| unit(m.verify_signature(i, &plan.aad, as_verify(v))))?;
+            let t = Tuple {
+                ctx: "Signature".into(),
+                body: w.prot.clone(),
+                sign: Some(sw.prot.clone()),
+                aad: plan.aad.clone(),
+                payload: norm(&w.payload),
+            };
+            rx.check(
+                &format!("{}verify_signature({})", tag, i),
+                t,
+                &stored,
+                plan,
+                |v| unit(m.verify_signature(i, &plan.aad, as_verify(v))),
+            )?;
             if w.payload.is_none() && m.payload.is_none() {
-                let t = Tuple { ctx: "Signature".into(), body: w.prot.clone(), sign: Some(sw.prot.clone()), aad: plan.aad.clone(), payload: Some(plan.detached.clone()) };
-                rx.check(&format!("{}verify_detached_signature({})", tag, i), t, &stored, plan, |v| {
-                    unit(m.verify_detached_signature(i, &plan.detached, &plan.aad, as_verify(v)))
-                })?;
+                let t = Tuple {
+                    ctx: "Signature".into(),
+                    body: w.prot.clone(),
+                    sign: Some(sw.prot.clone()),
+                    aad: plan.aad.clone(),
+                    payload: Some(plan.detached.clone()),
+                };
+                rx.check(
+                    &format!("{}verify_detached_signature({})", tag, i),
+                    t,
+                    &stored,
+                    plan,
+                    |v| {
+                        unit(m.verify_detached_signature(
+                            i,
+                            &plan.detached,
+                            &plan.aad,
+                            as_verify(v),
+                        ))
+                    },
+                )?;
             }
         }
     }
     Ok(())
 }
 
-fn verify_mac(rx: &mut Receiver, tag: &str, m: &coset::CoseMac, w: &WireView, plans: &[Plan]) -> Result<(), Violation> {
+fn verify_mac(
+    rx: &mut Receiver,
+    tag: &str,
+    m: &coset::CoseMac,
+    w: &WireView,
+    plans: &[Plan],
+) -> Result<(), Violation> {
     for plan in plans {
         if let (Some(p), Some(_)) = (&w.payload, &m.payload) {
-            let t = Tuple { ctx: "MAC".into(), body: w.prot.clone(), sign: None, aad: plan.aad.clone(), payload: Some(p.clone()) };
-            rx.check(&format!("{}verify_tag", tag), t, &w.slot.clone().unwrap_or_default(), plan, |v| unit(m.verify_tag(&plan.aad, as_verify(v))))?;
+            let t = Tuple {
+                ctx: "MAC".into(),
+                body: w.prot.clone(),
+                sign: None,
+                aad: plan.aad.clone(),
+                payload: Some(p.clone()),
+            };
+            rx.check(
+                &format!("{}verify_tag", tag),
+                t,
+                &w.slot.clone().unwrap_or_default(),
+                plan,
+                |v| unit(m.verify_tag(&plan.aad, as_verify(v))),
+            )?;
         }
         recv_recipients(rx, &m.recipients, &w.nested, tag, plan)?;
     }
     Ok(())
 }
 
-fn verify_mac0(rx: &mut Receiver, tag: &str, m: &coset::CoseMac0, w: &WireView, plans: &[Plan]) -> Result<(), Violation> {
+fn verify_mac0(
+    rx: &mut Receiver,
+    tag: &str,
+    m: &coset::CoseMac0,
+    w: &WireView,
+    plans: &[Plan],
+) -> Result<(), Violation> {
     for plan in plans {
         if let (Some(p), Some(_)) = (&w.payload, &m.payload) {
-            let t = Tuple { ctx: "MAC0".into(), body: w.prot.clone(), sign: None, aad: plan.aad.clone(), payload: Some(p.clone()) };
-            rx.check(&format!("{}verify_tag", tag), t, &w.slot.clone().unwrap_or_default(), plan, |v| unit(m.verify_tag(&plan.aad, as_verify(v))))?;
+            let t = Tuple {
+                ctx: "MAC0".into(),
+                body: w.prot.clone(),
+                sign: None,
+                aad: plan.aad.clone(),
+                payload: Some(p.clone()),
+            };
+            rx.check(
+                &format!("{}verify_tag", tag),
+                t,
+                &w.slot.clone().unwrap_or_default(),
+                plan,
+                |v| unit(m.verify_tag(&plan.aad, as_verify(v))),
+            )?;
         }
     }
     Ok(())
 }
 
-fn verify_encrypt(rx: &mut Receiver, tag: &str, m: &coset::CoseEncrypt, w: &WireView, plans: &[Plan]) -> Result<(), Violation> {
+fn verify_encrypt(
+    rx: &mut Receiver,
+    tag: &str,
+    m: &coset::CoseEncrypt,
+    w: &WireView,
+    plans: &[Plan],
+) -> Result<(), Violation> {
     for plan in plans {
         if let (Some(stored), Some(_)) = (&w.slot, &m.ciphertext) {
-            let t = Tuple { ctx: "Encrypt".into(), body: w.prot.clone(), sign: None, aad: plan.aad.clone(), payload: None };
-            rx.check(&format!("{}decrypt", tag), t, stored, plan, |v| m.decrypt(&plan.aad, |a, b| v(a, b)))?;
+            let t = Tuple {
+                ctx: "Encrypt".into(),
+                body: w.prot.clone(),
+                sign: None,
+                aad: plan.aad.clone(),
+                payload: None,
+            };
+            rx.check(&format!("{}decrypt", tag), t, stored, plan, |v| {
+                m.decrypt(&plan.aad, |a, b| v(a, b))
+            })?;
         }
         recv_recipients(rx, &m.recipients, &w.nested, tag, plan)?;
     }
     Ok(())
 }
 
-fn verify_encrypt0(rx: &mut Receiver, tag: &str, m: &coset::CoseEncrypt0, w: &WireView, plans: &[Plan]) -> Result<(), Violation> {
+fn verify_encrypt0(
+    rx: &mut Receiver,
+    tag: &str,
+    m: &coset::CoseEncrypt0,
+    w: &WireView,
+    plans: &[Plan],
+) -> Result<(), Violation> {
     for plan in plans {
         if let (Some(stored), Some(_)) = (&w.slot, &m.ciphertext) {
-            let t = Tuple { ctx: "Encrypt0".into(), body: w.prot.clone(), sign: None, aad: plan.aad.clone(), payload: None };
-            rx.check(&format!("{}decrypt", tag), t, stored, plan, |v| m.decrypt(&plan.aad, |a, b| v(a, b)))?;
+            let t = Tuple {
+                ctx: "Encrypt0".into(),
+                body: w.prot.clone(),
+                sign: None,
+                aad: plan.aad.clone(),
+                payload: None,
+            };
+            rx.check(&format!("{}decrypt", tag), t, stored, plan, |v| {
+                m.decrypt(&plan.aad, |a, b| v(a, b))
+            })?;
         }
     }
     Ok(())
 }
 
-fn verify_recipient(rx: &mut Receiver, tag: &str, m: &coset::CoseRecipient, w: &WireView, plans: &[Plan]) -> Result<(), Violation> {
+fn verify_recipient(
+    rx: &mut Receiver,
+    tag: &str,
+    m: &coset::CoseRecipient,
+    w: &WireView,
+    plans: &[Plan],
+) -> Result<(), Violation> {
     for plan in plans {
-        recv_recipients(rx, std::slice::from_ref(m), std::slice::from_ref(w), tag, plan)?;
+        recv_recipients(
+            rx,
+            std::slice::from_ref(m),
+            std::slice::from_ref(w),
+            tag,
+            plan,
+        )?;
     }
     Ok(())
 }
@@ -1053,40 +1563,93 @@ fn receive(
         "CoseSign1" => lifecycle!(
             coset::CoseSign1,
             verify_sign1,
-            |b: &[u8]| if tagged { tagged_decode::<coset::CoseSign1>(b) } else { coset::CoseSign1::from_slice(b) },
-            |m: coset::CoseSign1| if tagged { m.to_tagged_vec() } else { m.to_vec() }
+            |b: &[u8]| if tagged {
+                tagged_decode::<coset::CoseSign1>(b)
+            } else {
+                coset::CoseSign1::from_slice(b)
+            },
+            |m: coset::CoseSign1| if tagged {
+                m.to_tagged_vec()
+            } else {
+                m.to_vec()
+            }
         ),
         "CoseSign" => lifecycle!(
             coset::CoseSign,
             verify_sign,
-            |b: &[u8]| if tagged { tagged_decode::<coset::CoseSign>(b) } else { coset::CoseSign::from_slice(b) },
-            |m: coset::CoseSign| if tagged { m.to_tagged_vec() } else { m.to_vec() }
+            |b: &[u8]| if tagged {
+                tagged_decode::<coset::CoseSign>(b)
+            } else {
+                coset::CoseSign::from_slice(b)
+            },
+            |m: coset::CoseSign| if tagged {
+                m.to_tagged_vec()
+            } else {
+                m.to_vec()
+            }
         ),
         "CoseMac" => lifecycle!(
             coset::CoseMac,
             verify_mac,
-            |b: &[u8]| if tagged { tagged_decode::<coset::CoseMac>(b) } else { coset::CoseMac::from_slice(b) },
-            |m: coset::CoseMac| if tagged { m.to_tagged_vec() } else { m.to_vec() }
+            |b: &[u8]| if tagged {
+                tagged_decode::<coset::CoseMac>(b)
+            } else {
+                coset::CoseMac::from_slice(b)
+            },
+            |m: coset::CoseMac| if tagged {
+                m.to_tagged_vec()
+            } else {
+                m.to_vec()
+            }
         ),
         "CoseMac0" => lifecycle!(
             coset::CoseMac0,
             verify_mac0,
-            |b: &[u8]| if tagged { tagged_decode::<coset::CoseMac0>(b) } else { coset::CoseMac0::from_slice(b) },
-            |m: coset::CoseMac0| if tagged { m.to_tagged_vec() } else { m.to_vec() }
+            |b: &[u8]| if tagged {
+                tagged_decode::<coset::CoseMac0>(b)
+            } else {
+                coset::CoseMac0::from_slice(b)
+            },
+            |m: coset::CoseMac0| if tagged {
+                m.to_tagged_vec()
+            } else {
+                m.to_vec()
+            }
         ),
         "CoseEncrypt" => lifecycle!(
             coset::CoseEncrypt,
             verify_encrypt,
-            |b: &[u8]| if tagged { tagged_decode::<coset::CoseEncrypt>(b) } else { coset::CoseEncrypt::from_slice(b) },
-            |m: coset::CoseEncrypt| if tagged { m.to_tagged_vec() } else { m.to_vec() }
+            |b: &[u8]| if tagged {
+                tagged_decode::<coset::CoseEncrypt>(b)
+            } else {
+                coset::CoseEncrypt::from_slice(b)
+            },
+            |m: coset::CoseEncrypt| if tagged {
+                m.to_tagged_vec()
+            } else {
+                m.to_vec()
+            }
         ),
         "CoseEncrypt0" => lifecycle!(
             coset::CoseEncrypt0,
             verify_encrypt0,
-            |b: &[u8]| if tagged { tagged_decode::<coset::CoseEncrypt0>(b) } else { coset::CoseEncrypt0::from_slice(b) },
-            |m: coset::CoseEncrypt0| if tagged { m.to_tagged_vec() } else { m.to_vec() }
+            |b: &[u8]| if tagged {
+                tagged_decode::<coset::CoseEncrypt0>(b)
+            } else {
+                coset::CoseEncrypt0::from_slice(b)
+            },
+            |m: coset::CoseEncrypt0| if tagged {
+                m.to_tagged_vec()
+            } else {
+                m.to_vec()
+            }
         ),
-        "CoseRecipient" => lifecycle!(coset::CoseRecipient, verify_recipient, |b: &[u8]| coset::CoseRecipient::from_slice(b), |m: coset::CoseRecipient| m.to_vec()),
+        "CoseRecipient" => lifecycle!(
+            coset::CoseRecipient,
+            verify_recipient,
+            |b: &[u8]| coset::CoseRecipient::from_slice(b),
+            |m: coset::CoseRecipient| m.to_vec()
+        ),
         _ => {}
     }
     Ok(true)
@@ -1136,24 +1699,51 @@ impl Engine for C06 {
         let kind = KINDS[rng.below(KINDS.len())];
         t.set_meta("builder", kind);
         let taggable = kind != "CoseRecipient";
-        t.set_meta("encode", if taggable && rng.bool() { "tagged" } else { "untagged" });
+        t.set_meta(
+            "encode",
+            if taggable && rng.bool() {
+                "tagged"
+            } else {
+                "untagged"
+            },
+        );
         for s in gen_history(kind, &mut rng) {
             t.push(s);
         }
         let nf = rng.weighted(&[60, 30, 10]);
         for _ in 0..nf {
             let region = ["protected", "unprotected", "payload", "slot", "nested"][rng.below(5)];
-            t.push(Step::new("fault", "flip", vec![Arg::S(region.into()), Arg::I(rng.below(1000) as i128), Arg::I(rng.below(8) as i128)]));
+            t.push(Step::new(
+                "fault",
+                "flip",
+                vec![
+                    Arg::S(region.into()),
+                    Arg::I(rng.below(1000) as i128),
+                    Arg::I(rng.below(8) as i128),
+                ],
+            ));
         }
         // the receiver also edits the decoded message the documented way and verifies again
-        t.push(Step::new("edit", "replace-protected", vec![a_hdr(&mut rng)]));
+        t.push(Step::new(
+            "edit",
+            "replace-protected",
+            vec![a_hdr(&mut rng)],
+        ));
         // verify plan
         t.push(Step::new("verify", "same", vec![Arg::I(1)]));
         if rng.bool() {
-            t.push(Step::new("verify", "aad", vec![a_aad(&mut rng), Arg::I(rng.chance(3, 4) as i128)]));
+            t.push(Step::new(
+                "verify",
+                "aad",
+                vec![a_aad(&mut rng), Arg::I(rng.chance(3, 4) as i128)],
+            ));
         }
         if rng.bool() {
-            t.push(Step::new("verify", "payload", vec![a_payload(&mut rng), Arg::I(rng.chance(3, 4) as i128)]));
+            t.push(Step::new(
+                "verify",
+                "payload",
+                vec![a_payload(&mut rng), Arg::I(rng.chance(3, 4) as i128)],
+            ));
         }
         if rng.chance(1, 3) {
             t.push(Step::new("verify", "same", vec![Arg::I(0)]));
@@ -1206,7 +1796,8 @@ impl Engine for C06 {
         let mut used: Vec<crate::model::MHeader> = vec![crate::model::MHeader::default()];
         for o in &ops {
             match o.name.as_str() {
-                "protected" | "add_signature" | "add_created" | "add_detached" | "add_recipient" => {
+                "protected" | "add_signature" | "add_created" | "add_detached"
+                | "add_recipient" => {
                     // (templates that carry retained wire bytes are identified by those bytes)
                     if o.name == "protected" || protected_from_arg(o, 0)?.original.is_none() {
                         let h = header_from_arg(o, 0)?;
@@ -1222,7 +1813,12 @@ impl Engine for C06 {
         for h in &used {
             match enc_protected(h) {
                 Ok(b) => encs.push((h, b)),
-                Err(e) => return Ok(Some(Violation::new("C06.I5", format!("protected header {:?}: {}", h, e)))),
+                Err(e) => {
+                    return Ok(Some(Violation::new(
+                        "C06.I5",
+                        format!("protected header {:?}: {}", h, e),
+                    )))
+                }
             }
         }
         for a in 0..encs.len() {
@@ -1247,7 +1843,18 @@ impl Engine for C06 {
                         Ok(x) => x,
                         Err(e) => return Ok(Some(Violation::new("C06.I5", e))),
                     };
-                    break (b, s.obs, s.tokens, (body_id, s.payload.clone(), s.slot.clone(), s.signers.clone(), s.rcpts.clone()));
+                    break (
+                        b,
+                        s.obs,
+                        s.tokens,
+                        (
+                            body_id,
+                            s.payload.clone(),
+                            s.slot.clone(),
+                            s.signers.clone(),
+                            s.rcpts.clone(),
+                        ),
+                    );
                 }
                 Err(SendErr::Retry(idx)) => {
                     // I2 also holds for the bytes handed to the failing creator: keep checking them
@@ -1266,9 +1873,19 @@ impl Engine for C06 {
         let n_create = obs.len();
         st.add("create_events", n_create as u64);
         let post_create_mutation = {
-            let first_create = ops.iter().position(|o| matches!(o.name.as_str(), "create" | "create_detached" | "add_created" | "add_detached"));
+            let first_create = ops.iter().position(|o| {
+                matches!(
+                    o.name.as_str(),
+                    "create" | "create_detached" | "add_created" | "add_detached"
+                )
+            });
             match first_create {
-                Some(i) => ops[i + 1..].iter().any(|o| matches!(o.name.as_str(), "protected" | "payload" | "signature" | "tag" | "ciphertext")),
+                Some(i) => ops[i + 1..].iter().any(|o| {
+                    matches!(
+                        o.name.as_str(),
+                        "protected" | "payload" | "signature" | "tag" | "ciphertext"
+                    )
+                }),
                 None => false,
             }
         };
@@ -1279,17 +1896,63 @@ impl Engine for C06 {
 
         // encode
         let wire = match guarded(|| match &built {
-            Built::Sign1(m) => if tagged { m.clone().to_tagged_vec() } else { m.clone().to_vec() },
-            Built::Sign(m) => if tagged { m.clone().to_tagged_vec() } else { m.clone().to_vec() },
-            Built::Mac(m) => if tagged { m.clone().to_tagged_vec() } else { m.clone().to_vec() },
-            Built::Mac0(m) => if tagged { m.clone().to_tagged_vec() } else { m.clone().to_vec() },
-            Built::Encrypt(m) => if tagged { m.clone().to_tagged_vec() } else { m.clone().to_vec() },
-            Built::Encrypt0(m) => if tagged { m.clone().to_tagged_vec() } else { m.clone().to_vec() },
+            Built::Sign1(m) => {
+                if tagged {
+                    m.clone().to_tagged_vec()
+                } else {
+                    m.clone().to_vec()
+                }
+            }
+            Built::Sign(m) => {
+                if tagged {
+                    m.clone().to_tagged_vec()
+                } else {
+                    m.clone().to_vec()
+                }
+            }
+            Built::Mac(m) => {
+                if tagged {
+                    m.clone().to_tagged_vec()
+                } else {
+                    m.clone().to_vec()
+                }
+            }
+            Built::Mac0(m) => {
+                if tagged {
+                    m.clone().to_tagged_vec()
+                } else {
+                    m.clone().to_vec()
+                }
+            }
+            Built::Encrypt(m) => {
+                if tagged {
+                    m.clone().to_tagged_vec()
+                } else {
+                    m.clone().to_vec()
+                }
+            }
+            Built::Encrypt0(m) => {
+                if tagged {
+                    m.clone().to_tagged_vec()
+                } else {
+                    m.clone().to_vec()
+                }
+            }
             Built::Recipient(m) => m.clone().to_vec(),
         }) {
             Ok(Ok(w)) => w,
-            Ok(Err(e)) => return Ok(Some(Violation::new("C06.I5", format!("the built message does not encode: {:?}", e)))),
-            Err(p) => return Ok(Some(Violation::new("C06.I5", format!("encoding the built message panicked: {}", p)))),
+            Ok(Err(e)) => {
+                return Ok(Some(Violation::new(
+                    "C06.I5",
+                    format!("the built message does not encode: {:?}", e),
+                )))
+            }
+            Err(p) => {
+                return Ok(Some(Violation::new(
+                    "C06.I5",
+                    format!("encoding the built message panicked: {}", p),
+                )))
+            }
         };
         st.max("max:wire_len", wire.len() as u64);
         // I6: the encoded message carries exactly what the builder was given - protected bytes,
@@ -1297,25 +1960,52 @@ impl Engine for C06 {
         // as read from the wire by the harness's own CBOR reader
         {
             let (body_id, payload, slot, signers, rcpts) = &wire_model;
-            let w = match wire_view(&kind, &wire, tagged) {
-                Some(w) => w,
-                None => return Ok(Some(Violation::new("C06.I6", format!("the encoded message is not the structure the builder describes: {}", hex_short(&wire))))),
-            };
+            let w =
+                match wire_view(&kind, &wire, tagged) {
+                    Some(w) => w,
+                    None => return Ok(Some(Violation::new(
+                        "C06.I6",
+                        format!(
+                            "the encoded message is not the structure the builder describes: {}",
+                            hex_short(&wire)
+                        ),
+                    ))),
+                };
             let slot_default = match kind.as_str() {
                 "CoseSign1" | "CoseMac" | "CoseMac0" => Some(Vec::new()),
                 _ => None,
             };
-            let want_slot = if kind == "CoseSign" { None } else { slot.clone().or(slot_default) };
+            let want_slot = if kind == "CoseSign" {
+                None
+            } else {
+                slot.clone().or(slot_default)
+            };
             let mut bad: Option<String> = None;
             if w.prot != *body_id {
                 bad = Some(format!("protected bytes on the wire {} but the builder's protected header encodes as {}", hex_short(&w.prot), hex_short(body_id)));
-            } else if matches!(kind.as_str(), "CoseSign1" | "CoseSign" | "CoseMac" | "CoseMac0") && w.payload != *payload {
-                bad = Some(format!("payload on the wire {:?} but the builder was given {:?}", w.payload.as_ref().map(|p| hex_short(p)), payload.as_ref().map(|p| hex_short(p))));
+            } else if matches!(
+                kind.as_str(),
+                "CoseSign1" | "CoseSign" | "CoseMac" | "CoseMac0"
+            ) && w.payload != *payload
+            {
+                bad = Some(format!(
+                    "payload on the wire {:?} but the builder was given {:?}",
+                    w.payload.as_ref().map(|p| hex_short(p)),
+                    payload.as_ref().map(|p| hex_short(p))
+                ));
             } else if w.slot != want_slot {
-                bad = Some(format!("signature/tag/ciphertext on the wire {:?} but the builder holds {:?}", w.slot.as_ref().map(|p| hex_short(p)), want_slot.as_ref().map(|p| hex_short(p))));
+                bad = Some(format!(
+                    "signature/tag/ciphertext on the wire {:?} but the builder holds {:?}",
+                    w.slot.as_ref().map(|p| hex_short(p)),
+                    want_slot.as_ref().map(|p| hex_short(p))
+                ));
             } else if kind == "CoseSign" {
                 if w.nested.len() != signers.len() {
-                    bad = Some(format!("{} signatures on the wire, {} were added", w.nested.len(), signers.len()));
+                    bad = Some(format!(
+                        "{} signatures on the wire, {} were added",
+                        w.nested.len(),
+                        signers.len()
+                    ));
                 } else {
                     for (i, (sw, (id, sg))) in w.nested.iter().zip(signers.iter()).enumerate() {
                         if sw.prot != *id {
@@ -1323,14 +2013,23 @@ impl Engine for C06 {
                             break;
                         }
                         if sw.slot.as_deref() != Some(sg.as_slice()) {
-                            bad = Some(format!("signer {}: signature on the wire {:?} but {} was stored", i, sw.slot.as_ref().map(|p| hex_short(p)), hex_short(sg)));
+                            bad = Some(format!(
+                                "signer {}: signature on the wire {:?} but {} was stored",
+                                i,
+                                sw.slot.as_ref().map(|p| hex_short(p)),
+                                hex_short(sg)
+                            ));
                             break;
                         }
                     }
                 }
             } else if matches!(kind.as_str(), "CoseMac" | "CoseEncrypt" | "CoseRecipient") {
                 if w.nested.len() != rcpts.len() {
-                    bad = Some(format!("{} recipients on the wire, {} were added", w.nested.len(), rcpts.len()));
+                    bad = Some(format!(
+                        "{} recipients on the wire, {} were added",
+                        w.nested.len(),
+                        rcpts.len()
+                    ));
                 } else {
                     for (i, (rw, (id, ct))) in w.nested.iter().zip(rcpts.iter()).enumerate() {
                         if rw.prot != *id || rw.slot != *ct {
@@ -1393,14 +2092,29 @@ impl Engine for C06 {
         let mut plans = Vec::new();
         for v in &verifies {
             match v.name.as_str() {
-                "same" => plans.push(Plan { aad: creation_aad.clone(), detached: creation_detached.clone(), result_ok: v.int(0)? == 1, label: "creation aad/payload".into() }),
+                "same" => plans.push(Plan {
+                    aad: creation_aad.clone(),
+                    detached: creation_detached.clone(),
+                    result_ok: v.int(0)? == 1,
+                    label: "creation aad/payload".into(),
+                }),
                 "aad" => {
                     st.inc("fault:aad-mismatch");
-                    plans.push(Plan { aad: v.bytes(0)?.to_vec(), detached: creation_detached.clone(), result_ok: v.int(1)? == 1, label: "perturbed aad".into() })
+                    plans.push(Plan {
+                        aad: v.bytes(0)?.to_vec(),
+                        detached: creation_detached.clone(),
+                        result_ok: v.int(1)? == 1,
+                        label: "perturbed aad".into(),
+                    })
                 }
                 "payload" => {
                     st.inc("fault:payload-mismatch");
-                    plans.push(Plan { aad: creation_aad.clone(), detached: v.bytes(0)?.to_vec(), result_ok: v.int(1)? == 1, label: "perturbed detached payload".into() })
+                    plans.push(Plan {
+                        aad: creation_aad.clone(),
+                        detached: v.bytes(0)?.to_vec(),
+                        result_ok: v.int(1)? == 1,
+                        label: "perturbed detached payload".into(),
+                    })
                 }
                 x => return herr(format!("unknown verify step {}", x)),
             }
@@ -1414,7 +2128,15 @@ impl Engine for C06 {
             Some(e) => Some(header_from_arg(e, 0)?),
             None => None,
         };
-        let decoded = match receive(&kind, &delivered, tagged, &plans, replacement.as_ref(), &mut obs, st) {
+        let decoded = match receive(
+            &kind,
+            &delivered,
+            tagged,
+            &plans,
+            replacement.as_ref(),
+            &mut obs,
+            st,
+        ) {
             Ok(d) => d,
             Err(v) => return Ok(Some(v)),
         };
@@ -1434,8 +2156,18 @@ impl Engine for C06 {
         Ok(check_pairs(&obs))
     }
     fn finding_key(&self, t: &Trace, invariant: &str) -> String {
-        let ops: Vec<&str> = t.steps.iter().filter(|s| s.kind == "op").map(|s| s.name.as_str()).collect();
-        format!("{}:{}:{}", t.meta("builder").unwrap_or("?"), invariant, ops.join(","))
+        let ops: Vec<&str> = t
+            .steps
+            .iter()
+            .filter(|s| s.kind == "op")
+            .map(|s| s.name.as_str())
+            .collect();
+        format!(
+            "{}:{}:{}",
+            t.meta("builder").unwrap_or("?"),
+            invariant,
+            ops.join(",")
+        )
     }
 }
 
